@@ -554,6 +554,12 @@ func (s *Sim) resolveBlocked() bool {
 			}
 			s.violate("C05", fmt.Sprintf("C05|%s|%s|blocked-%c-%s|%s", rs.r.Transport, kindNames[rs.r.Kind], b.ev.Side, b.ev.Op, strings.ReplaceAll(why, " ", "-")), rs.r.ID,
 				"rpc%d %s %s: %c.%s (seq %d) is still blocked although %s and nothing else can happen (deadlock)", rs.r.ID, rs.r.Transport, kindNames[rs.r.Kind], b.ev.Side, b.ev.Op, b.ev.Seq, why)
+			if b.ev.Op == "send" && rs.r.Transport == TInproc && rs.r.Kind != KUnary {
+				// C20: a sender blocked by backpressure is released when the peer
+				// finishes or the context ends
+				s.violate("C20", fmt.Sprintf("C20|inproc|%s|sender-not-released|%c|%s", kindNames[rs.r.Kind], b.ev.Side, strings.ReplaceAll(why, " ", "-")), rs.r.ID,
+					"rpc%d %s: %c.send (seq %d) stays blocked although %s", rs.r.ID, kindNames[rs.r.Kind], b.ev.Side, b.ev.Seq, why)
+			}
 			continue
 		}
 	}
